@@ -1,6 +1,6 @@
 (* Non-vacuity of Vpsc/StaticRefine.merge_right_all_sat on a concrete state (one violated out-constraint, one merge). *)
 From Adapt Require Import Num.Qaux Vpsc.VpscSpec Vpsc.VpscModel Vpsc.VpscInv Vpsc.StaticModel Vpsc.StaticFrame
-  Vpsc.StaticInv Vpsc.StaticInvB Vpsc.StaticGeom Vpsc.StaticDag Vpsc.StaticRefine.
+  Vpsc.StaticInv Vpsc.StaticInvB Vpsc.StaticGeom Vpsc.StaticDag Vpsc.StaticRefine Vpsc.StaticOutHeap.
 Local Open Scope Q_scope.
 Definition mx_vs : list var := [mkvar 2 1 1; mkvar 0 1 1].
 Definition mx_cs : list con := [mkcon 0 1 1 false].
@@ -20,6 +20,21 @@ Proof.
   - intros i o Hi Ho E N. rewrite (proj2 (init_problem _ _)) in Hi. cbn in Hi. assert (i = O) by lia. subst i.
     vm_compute in E. discriminate.
 Qed.
+(* the state-level hypotheses (also those of StaticOutHeap.merge_right_all_sat_closed) *)
+Lemma mx_inh : inhabited (base (static_init mx_vs mx_cs)) 0.
+Proof. exists O. split; vm_compute; [lia | reflexivity]. Qed.
+Lemma mx_T2 : T2 (static_init mx_vs mx_cs).
+Proof. intros B. unfold btime_of, static_init. cbn [btime ctr]. rewrite nth_repeat_O. lia. Qed.
+Lemma mx_lct : length (ctime (static_init mx_vs mx_cs)) = length (scons (base (static_init mx_vs mx_cs))).
+Proof. vm_compute. reflexivity. Qed.
+Lemma mx_lbo : (length (blocks (base (static_init mx_vs mx_cs))) <= length (bout (static_init mx_vs mx_cs)))%nat.
+Proof. vm_compute. lia. Qed.
+Definition mx_returns0 : bool :=
+  match merge_right (static_init mx_vs mx_cs) 0 with Ok s' => all_satb s' | _ => false end.
+Lemma mx_returns0_true : mx_returns0 = true. Proof. vm_compute. reflexivity. Qed.
+
+(* the root hypothesis of the _partial theorem holds here because it holds in general (StaticOutHeap.MRH_roots); stated
+   through one boolean computation - `vm_compute in H` on an equation with free variables made Qed take minutes *)
 Example merge_right_all_sat_example :
   MRI (base (static_init mx_vs mx_cs)) 0 /\
   (forall s1 c, find_min_out (set_up_heap false (static_init mx_vs mx_cs) 0) 0 = Ok (s1, c) ->
@@ -28,11 +43,9 @@ Example merge_right_all_sat_example :
   slack_val (base (static_init mx_vs mx_cs)) 0 < 0.
 Proof.
   split; [exact mx_MRI|]. split; [|split].
-  - intros s1 c H. vm_compute in H. inversion H. subst s1 c. clear H.
-    vm_compute. split; [|split; [|exact I]].
-    + split; [lia|]. split; [reflexivity|]. split; [discriminate|].
-      intros o Ho. assert (o = O) by lia. subst o. intros _ _. left. discriminate.
-    + intros o Ho. assert (o = O) by lia. subst o. intros _ N. exfalso. apply N. reflexivity.
-  - eexists. vm_compute. reflexivity.
+  - intros s1 c H. apply MRH_roots.
+    exact (MRH_entry (static_init mx_vs mx_cs) 0 s1 c mx_MRI mx_inh mx_T2 mx_lct mx_lbo H).
+  - pose proof mx_returns0_true as P. unfold mx_returns0 in P.
+    destruct (merge_right (static_init mx_vs mx_cs) 0) as [s'| |]; try discriminate. exists s'. reflexivity.
   - vm_compute. reflexivity.
 Qed.
